@@ -63,7 +63,10 @@ func HookSchema(suffix string, a tfsdk.Attribute) tfsdk.Attribute {
 	r := a
 	r.Type = types.StringType
 	r.Attributes = nil
-	r.Description = hookDescPrefix + suffix + ":" + a.Description
+	r.Description = hookDescPrefix + suffix
+	if a.Description != "" {
+		r.Description += " " + a.Description
+	}
 	return r
 }
 
